@@ -1807,6 +1807,11 @@ class Interp:
                 return SymStr((Sym(f"{show(obj)}[{lo}:{hi}]", "str", tag=("slice", vkey(obj), lo, hi)),))
             if isinstance(obj, Ext):
                 return self.ext_child(obj, f"[{lo}:{hi}]")
+        if isinstance(obj, Ext) and st is None:
+            return self.ext_child(obj, f"[{show(lo)}:{show(hi)}]")
+        if isinstance(obj, (SymStr, Sym)) and st is None:
+            # bounds that are not literal numbers: an opaque part of the string, identified by the bounds
+            return SymStr((Sym(f"{show(obj)}[{show(lo)}:{show(hi)}]", "str", tag=("slice", vkey(obj), vkey(lo), vkey(hi))),))
         self.unsupported(f"slice of {obj!r}", node)
 
     def subscript(self, obj, idx, node):
